@@ -4,6 +4,7 @@ import vlib
 from specgen import ops_spec, base_spec
 from graphgen import graph_spec, KINDS
 from checks.c11 import FIXTURES
+import cligrammar as G
 
 MODES = ["types", "client", "client-mod", "server-mod"]
 ALL_METHODS = ["get", "put", "post", "delete", "options", "head", "patch", "trace"]
@@ -140,7 +141,8 @@ def tree(root):
     return sorted(out)
 
 
-def run_one(ctx, d, spec, mode, target, tag):
+def run_one(ctx, d, spec, mode, target, tag, flags=()):
+    """mode: one of MODES, or 'list' (`list operations`, which promises no file)"""
     spec_path = os.path.join(d, f"spec_{tag}.json")
     json.dump(spec, open(spec_path, "w"))
     # every run gets a directory of its own, so that files dropped NEXT TO the target are seen too
@@ -166,7 +168,9 @@ def run_one(ctx, d, spec, mode, target, tag):
         os.makedirs(outp); os.makedirs(os.path.join(outp, "client.rs" if mode == "client-mod" else "server.rs"))
     before_out = listing(outp) if os.path.exists(outp) else []
     before = tree(cd)
-    rc, so, se, to = ctx.run_cli(["generate", mode, "-i", spec_path, "-o", outp, "-q"], timeout=10 if ctx.quick else 20, env={"RUST_BACKTRACE": "0"})
+    flags = list(flags)
+    args = ["list", "operations", "-i", spec_path] if mode == "list" else ["generate", mode, "-i", spec_path, "-o", outp, "-q"] + flags
+    rc, so, se, to = ctx.run_cli(args, timeout=10 if ctx.quick else 20, env={"RUST_BACKTRACE": "0"})
     if target == "readonly":
         os.chmod(out + "_ro", 0o755)
     after = tree(cd)
@@ -178,7 +182,7 @@ def run_one(ctx, d, spec, mode, target, tag):
     is_root = os.geteuid() == 0
     if target == "readonly" and is_root:
         tgt = "ok"        # root ignores directory permissions: the write is expected to succeed
-    return {"op": "cli.outcome", "in": {"spec": spec, "mode": mode, "target": tgt}, "primary": {"spec_file": spec_path, "mode": mode, "target": target},
+    return {"op": "cli.outcome", "in": {"spec": spec, "mode": mode, "target": tgt, "flags": flags}, "primary": {"spec_file": spec_path, "mode": mode, "target": target, "flags": flags},
             "impl": {"rc": rc, "timeout": to, "before": before if target != "preexisting" else before, "after": after, "written": written, "stderr": se[-1500:]}}
 
 
@@ -232,6 +236,67 @@ def run(ctx):
             c = run_one(ctx, d, sp, r.choice(MODES), "ok", f"seg{i}")
             c["primary"]["segment"] = sg
             batch.append(c)
+        # ---- value grammar: enum / const / anyOf / oneOf shapes with values of every JSON kind in every position,
+        # under every enum mode, with and without helper methods
+        def flush():
+            nonlocal batch
+            if batch:
+                ctx.judge_direct(batch, tie="E-cli"); batch = []
+        vi = 0
+        def value_case(shape, vals, pos, mode, flags):
+            nonlocal vi
+            c = run_one(ctx, d, G.place(G.enum_shape(shape, vals), pos), mode, "ok", f"val{vi}", flags)
+            c["primary"].update({"family": "values", "shape": shape, "values": vals, "position": pos}); vi += 1
+            batch.append(c)
+        for i, (shape, vals, pos) in enumerate(G.value_fixed_family()):
+            # the fixed family: default flags (helpers on), modes in rotation; thorough: every mode x enum mode x helpers
+            if ctx.quick:
+                value_case(shape, vals, pos, MODES[i % 4], [] if i % 3 else ["--enum-mode", G.ENUM_MODES[(i // 3) % 3]])
+            else:
+                for mode in MODES:
+                    for em in G.ENUM_MODES:
+                        for nh in ([], ["--no-helpers"]):
+                            value_case(shape, vals, pos, mode, ["--enum-mode", em] + nh)
+                flush()
+        for i in range(45 if ctx.quick else 1200):
+            value_case(r.choice(G.ENUM_SHAPES), G.random_values(r), r.choice(G.POSITIONS), r.choice(MODES + (["list"] if i % 10 == 0 else [])), G.random_flags(r))
+            if len(batch) >= 60:
+                flush()
+        flush()
+        # ---- cycle grammar: a component that reaches itself (or a sibling that points back) through 1-3 composition
+        # keywords, the inner links in INLINE schemas
+        ci = 0
+        def cycle_case(chain, tgt, rich, back, mode, flags=(), used=True):
+            nonlocal ci
+            c = run_one(ctx, d, G.cycle_doc(chain, tgt, rich, back, used), mode, "ok", f"cyc{ci}", flags)
+            c["primary"].update({"family": "cycles", "chain": list(chain), "to": tgt, "rich": rich, "back": back}); ci += 1
+            batch.append(c)
+        for i, (chain, tgt, rich, back) in enumerate(G.cycle_fixed_family()):
+            for mode in ([MODES[i % 4]] if ctx.quick else MODES + ["list"]):
+                cycle_case(chain, tgt, rich, back, mode)
+            if len(batch) >= 60:
+                flush()
+        chains = G.all_chains(3)
+        short = [c for c in chains if len(c) <= 2]
+        todo = [(c, t, rich) for c in short for t in ("self", "sib") for rich in (False, True)] if not ctx.quick else []
+        for i in range(30 if ctx.quick else 900):
+            todo.append((r.choice(chains if r.random() < 0.6 else short), r.choice(["self", "sib"]), r.random() < 0.5))
+        for i, (chain, tgt, rich) in enumerate(todo):
+            cycle_case(chain, tgt, rich, r.choice(G.KEYWORDS) if r.random() < 0.3 else None, r.choice(MODES), G.random_flags(r) if r.random() < 0.3 else (), used=r.random() < 0.85)
+            if len(batch) >= 60:
+                flush()
+        flush()
+        # ---- witnesses of the crash shapes that exist on the unchanged tree (each must stay attributed to its class)
+        wit = {}
+        cp = os.path.join(vlib.VERIF, "corpus", "C12.jsonl")
+        if os.path.exists(cp):
+            for k, l in enumerate(open(cp, encoding="utf-8")):
+                if l.strip():
+                    e = json.loads(l)["in"]
+                    wit[f"corpus{k}"] = (e["spec"], e["mode"], e.get("flags", []))
+        for tag, (sp, mode, fl) in wit.items():
+            batch.append(run_one(ctx, d, sp, mode, "ok", tag, fl))
+        flush()
         bad = dict(bases[-1]); bad = copy.deepcopy(bad); bad["paths"] = "nope"
         batch.append(run_one(ctx, d, bad, "client-mod", "preexisting", "w_fail_preexisting"))
         for i in range(n):
@@ -240,7 +305,7 @@ def run(ctx):
             for _ in range(r.randint(1, 3)):
                 spec, k = mutate(spec, r); kinds.append(k)
             mode = r.choice(MODES)
-            c = run_one(ctx, d, spec, mode, "ok", f"m{i}")
+            c = run_one(ctx, d, spec, mode, "ok", f"m{i}", G.random_flags(r) if r.random() < 0.25 else ())
             c["primary"]["mutations"] = kinds
             batch.append(c)
             if len(batch) >= 60:
@@ -259,4 +324,4 @@ def run(ctx):
     return ctx.finish(
         checker_cmd="lake build Oas3Model.Props.C12 && #print axioms on every theorem" + ("" if ctx.quick else " && leanchecker"),
         trusted_base=vlib.TRUSTED_BASE + ["the oas3 parser, tokio and the OS are outside the model; their behaviour is only observed through real CLI runs", "the panic-site table is produced by a regex-level scan (tools/extract.py: gen_panicsites) and justified by a reviewed list"],
-        rule="the REAL binary on fixtures and generated specs passed through 1-3 structure-aware mutators (ref retargeting incl. dangling/external/self/cyclic, allOf cycles, deletion, type confusion, empty/huge/keyword/odd names, edits of path templates (non-ASCII, stray/nested braces, odd characters next to a parameter), all 8 HTTP methods, deep nesting, contradictory constraints) x 4 modes (160 quick / 3000 thorough) + the path-template segment grammar ({literal, parameter} arrangements over ASCII / multi-byte literals, malformed braces; 24 quick / 47 thorough) + unwritable / non-directory / pre-existing / half-blocked output targets; observed: exit status, signal, time limit, stderr, listing (files with content hashes and directories) of the run's own directory - the target and everything next to it - before/after; non-trivial = every run; distinct by branch (ok/error/panic/signal x target)")
+        rule="the REAL binary on fixtures and generated specs passed through 1-3 structure-aware mutators (ref retargeting incl. dangling/external/self/cyclic, allOf cycles, deletion, type confusion, empty/huge/keyword/odd names, edits of path templates (non-ASCII, stray/nested braces, odd characters next to a parameter), all 8 HTTP methods, deep nesting, contradictory constraints; a quarter of them under random --enum-mode / --no-helpers / --enable-builders / --all-schemas) x 4 modes (160 quick / 3000 thorough) + the path-template segment grammar ({literal, parameter} arrangements over ASCII / multi-byte literals, malformed braces; 24 quick / 47 thorough) + the VALUE grammar (17 enum / const / anyOf / oneOf shapes incl. the relaxed patterns anyOf[string, enum...] x values of every JSON kind: null, integers, > i64::MAX, > u64::MAX, < i64::MIN, floats, booleans, arrays, objects, empty and keyword-like strings, duplicates, the empty list x 8 positions x enum mode x helpers; fixed family of 22 always, thorough x 4 modes x 3 enum modes x helpers on/off; + 45 quick / 1200 thorough random) + the CYCLE grammar (component A = k1(k2(k3($ref ...))) over allOf / oneOf / anyOf / items / additionalProperties / properties / not / prefixItems, inner links in INLINE schemas, back to A or to a sibling that points back, bare or with neighbouring members; fixed family of 34 always, thorough: all chains of length <= 2 + 900 random up to length 3; + 30 quick random) + `list operations` on a sample + the witness documents of corpus/C12.jsonl + unwritable / non-directory / pre-existing / half-blocked output targets; observed: exit status, signal, time limit, stderr, listing (files with content hashes and directories) of the run's own directory - the target and everything next to it - before/after; non-trivial = every run; distinct by branch (ok/error/panic/signal x target)")
